@@ -9,7 +9,14 @@ copy), get_nshandler_for_lang(l), pickle round trip of a living handler) and eve
 handlers of the group's site.  The monitor judges each handler against what the site's OWN siteinfo JSON defines
 (vt/harness/c12_ref.py, loaded from the files, never from the handler).
 
+A second kind of history is about object LIFETIMES (mode `lifetimes`): NuWiki, the fetcher and the zip readers build their
+handler on a siteinfo that was just loaded from JSON and goes away with the job.  One process runs hundreds of jobs
+load siteinfo (json.load of the site's file / json.loads / deep copy) -> NsHandler -> lookups -> drop everything -> gc.collect()
+over different sites (up to three jobs overlap), and every answer is judged against the site's OWN table: a handler must never
+answer from what an earlier, dead object of another site left behind.
+
 usage: python -m vt.harness.c12_impl run <seed> <shard> <ngroups> <model_exe> [<corpus.json>]
+       python -m vt.harness.c12_impl lifetimes <seed> <shard> <njobs>
        python -m vt.harness.c12_impl replay      stdin: {"lang","dns","title"[,"history","inst","expect"]} -> oracle verdict
        python -m vt.harness.c12_impl minimise    stdin: same object -> smallest history / title that still fails
 stdout: one JSON object (summary, monitor hits, disagreements, samples).
@@ -391,6 +398,270 @@ def run(seed, shard, ngroups, exe, corpus):
             "dist": dist, "samples": samples, "groups": len(groups), "site_order": site_order(seed, shard, langs)}
 
 
+# ---------------------------------------------------------------------------------------- object lifetimes
+LIFE_HOWS = ["json", "json", "jsons", "deepcopy"]
+LIFE_SLOTS = 3
+
+
+def transient_siteinfo(lang, how):
+    """a siteinfo object of its own (nobody else holds it), the way a job gets one"""
+    path = os.path.join(os.path.dirname(siteinfo.__file__), "known_sites", "siteinfo-%s.json" % lang)
+    if how == "json":            # nuwiki._loadjson / fetcher: json.load of a file
+        with open(path, encoding="utf-8") as f:
+            return json.load(f)
+    if how == "jsons":           # zip readers: json.loads of bytes
+        with open(path, "rb") as f:
+            return json.loads(f.read())
+    if how == "deepcopy":
+        return copy.deepcopy(siteinfo.get_siteinfo(lang))
+    raise ValueError(how)
+
+
+def lifetime_ops(rng, gen, sites, njobs):
+    """ops: ["load", slot, lang, how] (slot's previous content is dropped) | ["use", slot, api, title, dns] | ["drop", slot]
+    (followed by a full gc.collect()).  A job = load + 1..4 lookups + (mostly) drop; up to LIFE_SLOTS jobs overlap.  Lookups carry
+    a namespace name of the job's own site (any kind, letter case varied), a name of ANOTHER site, or no namespace at all."""
+    langs = sorted(sites)
+    # a shard works mostly on a few sites (neighbouring jobs of different sites that differ in every local name)
+    focus = rng.sample(langs, 3)
+    ops = []
+    live = {}
+
+    def lookups(slot, lang, n):
+        _star, names = gen.names[lang]
+        for _ in range(n):
+            q = rng.random()
+            if q < 0.55 and names:
+                pfx = rng.choice(names)[1]
+            elif q < 0.85:
+                pfx = rng.choice(gen.all_names)
+            else:
+                pfx = rng.choice(HIST_PREFIXES)
+            if rng.random() < 0.4:
+                pfx = gen.casevar(pfx)
+            t = pfx + rng.choice([":", ":", ":", ": ", "_:"]) + rng.choice(HIST_RESTS)
+            ops.append(["use", slot, rng.choice(["split", "split", "split", "fq"]), t, rng.choice([0, 0, 0, 6, 10, 14])])
+
+    for _ in range(njobs):
+        q = rng.random()
+        if live and q < 0.12:
+            slot = rng.choice(sorted(live))
+            lookups(slot, live[slot], rng.randint(1, 2))
+        elif live and q < 0.2:
+            slot = rng.choice(sorted(live))
+            ops.append(["drop", slot])
+            del live[slot]
+        else:
+            slot = rng.randrange(LIFE_SLOTS)
+            lang = rng.choice(focus) if rng.random() < 0.7 else rng.choice(langs)
+            ops.append(["load", slot, lang, rng.choice(LIFE_HOWS)])
+            live[slot] = lang
+            lookups(slot, lang, rng.randint(1, 4))
+            if rng.random() < 0.8:
+                ops.append(["drop", slot])
+                del live[slot]
+    return ops
+
+
+def pin_address_space():
+    """whether a dead object's address is handed out again depends on the memory layout: run the lifetime histories without
+    address-space randomisation and with a fixed str hash seed, so that a history found once can be replayed"""
+    if os.environ.get("VERIF_C12_PINNED") == "1":
+        return
+    try:
+        import ctypes
+        libc = ctypes.CDLL(None, use_errno=True)
+        cur = libc.personality(0xFFFFFFFF)
+        if cur == -1 or libc.personality(cur | 0x0040000) == -1:      # ADDR_NO_RANDOMIZE
+            return
+    except Exception:  # noqa: BLE001
+        return
+    env = dict(os.environ, VERIF_C12_PINNED="1", PYTHONHASHSEED="0")
+    sys.stdout.flush()
+    os.execve(sys.executable, [sys.executable, "-m", "vt.harness.c12_impl"] + sys.argv[1:], env)
+
+
+def judge_ops(ops, sites, tries=8):
+    """replay of a lifetime history: run it in a forked child of this (fresh) process; a history that does not fail there is
+    tried again with a few small dicts allocated (kept / freed) first - the failing answer of a history found in another process
+    can depend on what that process had allocated before.  The oracle is the same in every try, so whatever fails is a real
+    wrong answer of the real code."""
+    for k in range(tries):
+        def go(k=k):
+            keep = [{} for _ in range(k)]
+            if k % 2:
+                del keep[:]
+            return run_ops(ops, sites, first_only=True)[0]
+        r = in_child(go)
+        if r:
+            return r, k
+    return [], tries
+
+
+def run_ops(ops, sites, first_only=False):
+    """execute the ops in THIS process; the monitor judges every lookup against the site's own reference (c12_ref.canon; the
+    shape conditions; where the title is outside the reference grammar, against a handler on the bundled, never-dying
+    siteinfo of the site that was set up before the first job).  Returns (problems, stats); problem = [op index, kind, detail,
+    lang, api, title, dns]."""
+    import gc
+    persistent = {}
+    for lang in sorted({o[2] for o in ops if o[0] == "load"}):
+        persistent[lang] = nshandling.NsHandler(siteinfo.get_siteinfo(lang))
+        real_split(persistent[lang], WARMUP, 0)
+    slots = {}
+    probs = []
+    stats = {"loads": 0, "uses": 0, "drops": 0, "judged_by_site_reference": 0, "max_live": 0}
+    for i, op in enumerate(ops):
+        if op[0] == "load":
+            _o, slot, lang, how = op
+            slots.pop(slot, None)
+            si = transient_siteinfo(lang, how)
+            slots[slot] = (lang, si, nshandling.NsHandler(si))
+            del si
+            stats["loads"] += 1
+            stats["max_live"] = max(stats["max_live"], len(slots))
+        elif op[0] == "drop":
+            slots.pop(op[1], None)
+            gc.collect()
+            stats["drops"] += 1
+        else:
+            _o, slot, api, title, dns = op
+            if slot not in slots:
+                continue
+            lang, _si, h = slots[slot]
+            site = sites[lang]
+            stats["uses"] += 1
+            res = real_fq(h, title, dns) if api == "fq" else real_split(h, title, dns)
+            if isinstance(res, list) and res and res[0] == "EXC":
+                if res[1] == "KeyError" and dns not in site["star"]:
+                    continue
+                probs.append([i, "exception", "%s raised %s: %s" % (api, res[1], res[2]), lang, api, title, dns])
+            else:
+                want = c12_ref.canon(site, title, dns)
+                got = res if api == "fq" else res[2]
+                name = "get_fqname" if api == "fq" else "splitname"
+                if want is not None:
+                    stats["judged_by_site_reference"] += 1
+                    if (got != want[2]) if api == "fq" else (res != want):
+                        probs.append([i, "site-definition", "%s(%r, %d) = %r on a handler made from a freshly loaded siteinfo of %s; the "
+                                      "site's own siteinfo defines %r" % (name, title, dns, res, lang, want[2] if api == "fq" else want),
+                                      lang, api, title, dns])
+                else:
+                    r0 = real_fq(persistent[lang], title, dns) if api == "fq" else real_split(persistent[lang], title, dns)
+                    if r0 != res:
+                        probs.append([i, "lifetime", "%s(%r, %d) = %r on a handler made from a freshly loaded siteinfo of %s, %r on a "
+                                      "handler on the bundled siteinfo of the same site" % (name, title, dns, res, lang, r0),
+                                      lang, api, title, dns])
+                if api != "fq" and not (probs and probs[-1][0] == i):
+                    ns, partial, full = res
+                    if ns not in site["star"]:
+                        probs.append([i, "shape", "reported namespace %r is not defined by the site" % (ns,), lang, api, title, dns])
+                    elif full != (site["star"][ns] + ":" if site["star"][ns] else "") + partial:
+                        probs.append([i, "shape", "full name %r is not local name + ':' + remainder" % (full,), lang, api, title, dns])
+            if probs and first_only:
+                break
+    return probs, stats
+
+
+def lifetimes(seed, shard, njobs):
+    sites = ref_sites()
+    rng = random.Random(seed * 6007 + shard * 15485863 + 29)
+    gen = c12_gen.Gen(rng, sites)
+    ops = lifetime_ops(rng, gen, sites, njobs)
+    probs, stats = run_ops(ops, sites)
+    digests = set()
+    for op in ops:
+        if op[0] == "use":
+            digests.add(hashlib.blake2b(repr(("life", op[3], op[4])).encode("utf8", "replace"), digest_size=8).hexdigest())
+    hits = []
+    for i, kind, detail, lang, api, title, dns in probs[:3]:
+        hits.append({"kind": kind, "detail": detail, "lang": lang, "dns": dns, "title": title, "api": api, "group": "lifetimes",
+                     "ops": ops[:i + 1], "expect": None, "history": [], "inst": 0, "calls": []})
+    return {"jobs": njobs, "ops": len(ops), "stats": stats, "problems": len(probs), "hits": hits, "digests": sorted(digests)}
+
+
+def jobs_of(ops):
+    """split ops into removable units: a load with everything up to (not including) the next load of any slot"""
+    units = []
+    for op in ops:
+        if op[0] == "load" or not units:
+            units.append([op])
+        else:
+            units[-1].append(op)
+    return units
+
+
+def minimise_ops(c, budget=160):
+    """shortest sequence of jobs that still makes the monitor fire on its LAST lookup's site (each candidate runs in a forked
+    child of this fresh process); then fewer lookups per job"""
+    sites = ref_sites()
+
+    def attempt(ops):
+        return in_child(lambda: run_ops(ops, sites, first_only=True)[0])
+
+    def verified(ops):
+        """through the real replay entry point (fresh process)"""
+        p = subprocess.run([sys.executable, "-m", "vt.harness.c12_impl", "replay", "ops"], input=json.dumps({"ops": ops}),
+                           capture_output=True, text=True)
+        try:
+            return bool(json.loads([ln for ln in p.stdout.splitlines() if ln.startswith("{")][-1])["problems"])
+        except Exception:  # noqa: BLE001
+            return False
+    calls = [0]
+
+    def bad(ops):
+        calls[0] += 1
+        r = attempt(ops)
+        return r if r and r[0][0] == len(ops) - 1 else None      # the LAST op must be the failing lookup
+    ops = c["ops"]
+    first = attempt(ops)
+    if not first:
+        first, _k = judge_ops(ops, sites)
+    if not first:
+        return {"reproduced": False}
+    ops = ops[:first[0][0] + 1]
+    units = jobs_of(ops)
+    last = units[-1]
+    # the failing lookup alone in its job
+    cand_last = [last[0], last[-1]] if last[0][0] == "load" else last
+    head = units[:-1]
+    if bad([o for u in head for o in u] + cand_last):
+        last = cand_last
+    n = 2
+    while head and calls[0] < budget:
+        chunk = max(1, len(head) // n)
+        removed = False
+        for i in range(0, len(head), chunk):
+            cand = head[:i] + head[i + chunk:]
+            if calls[0] >= budget:
+                break
+            if bad([o for u in cand for o in u] + last):
+                head, removed = cand, True
+                n = max(n - 1, 2)
+                break
+        if not removed:
+            if chunk == 1:
+                break
+            n = min(len(head), n * 2)
+    # inside the remaining jobs: drop single lookups / drops that are not needed
+    flat = [o for u in head for o in u]
+    i = 0
+    while i < len(flat) and calls[0] < budget + 60:
+        if flat[i][0] != "load":
+            cand = flat[:i] + flat[i + 1:]
+            if bad(cand + last):
+                flat = cand
+                continue
+        i += 1
+    out_ops = flat + last
+    final = attempt(out_ops)
+    if not final or not verified(out_ops):
+        out_ops, final = ops, first
+    i, kind, detail, lang, api, title, dns = final[0]
+    return {"reproduced": True, "ops": out_ops, "problems": [[kind, detail]], "lang": lang, "dns": dns, "title": title, "api": api,
+            "history": [], "inst": 0, "calls": [], "expect": None, "attempts": calls[0]}
+
+
 # ---------------------------------------------------------------------------------------- replay / minimise
 def judge(c):
     """rebuild the history of handlers in THIS process and apply the oracle to the one evaluation"""
@@ -653,6 +924,10 @@ def minimise(c):
 
 def replay():
     c = json.load(sys.stdin)
+    if c.get("ops"):
+        probs, k = judge_ops(c["ops"], ref_sites())
+        print(json.dumps({"result": {"ops": len(c["ops"]), "perturbation": k}, "problems": [[p[1], p[2]] for p in probs]}))
+        return
     res, probs, _ = judge(c)
     print(json.dumps({"result": res, "problems": [list(p) for p in probs]}))
 
@@ -662,6 +937,14 @@ if __name__ == "__main__":
         out = run(int(sys.argv[2]), int(sys.argv[3]), int(sys.argv[4]), sys.argv[5], sys.argv[6] if len(sys.argv) > 6 else None)
         sys.stdout.write(json.dumps(out) + "\n")
     elif sys.argv[1] == "replay":
+        if len(sys.argv) > 2 and sys.argv[2] == "ops":
+            pin_address_space()
         replay()
+    elif sys.argv[1] == "lifetimes":
+        pin_address_space()
+        sys.stdout.write(json.dumps(lifetimes(int(sys.argv[2]), int(sys.argv[3]), int(sys.argv[4]))) + "\n")
     elif sys.argv[1] == "minimise":
-        print(json.dumps(minimise(json.load(sys.stdin))))
+        if len(sys.argv) > 2 and sys.argv[2] == "ops":
+            pin_address_space()
+        obj = json.load(sys.stdin)
+        print(json.dumps(minimise_ops(obj) if obj.get("ops") else minimise(obj)))
